@@ -44,3 +44,25 @@ Example C13_nonvacuous :
   let '(s, tr) := a_run (new_agent 1) [AStart 1 5; AStart 2 9; AStart 1 7; ACollect 6; AProcess 2; AStart 1 3; AClose; AStart 3 1] in
   ag_closed s = true /\ starts 1 tr = 2 /\ terminals 1 tr = 2 /\ starts 2 tr = 1 /\ terminals 2 tr = 1.
 Proof. vm_compute. repeat split. Qed.
+
+(* Collect(t), read off directly: strictly before t means a timeout and out of the table; t or later -
+   however far away, a "never" deadline thousands of years ahead included - means it stays and the call
+   emits nothing for it *)
+Theorem C13_collect_expired : forall s t id d, ag_closed s = false -> In (id, d) (ag_tbl s) -> (d < t)%Z ->
+  In (mkEv (ag_handler s) id K_TIMEOUT 0 true) (snd (snd (a_step s (ACollect t)))) /\
+  ~ In (id, d) (ag_tbl (fst (a_step s (ACollect t)))).
+Proof. exact collect_expired. Qed.
+Print Assumptions C13_collect_expired.
+
+Theorem C13_collect_keeps_unexpired : forall s t id d, ainv s -> ag_closed s = false ->
+  In (id, d) (ag_tbl s) -> (t <= d)%Z ->
+  In (id, d) (ag_tbl (fst (a_step s (ACollect t)))) /\
+  (forall ev, In ev (snd (snd (a_step s (ACollect t)))) -> ev_id ev <> id).
+Proof. exact collect_keeps_unexpired. Qed.
+Print Assumptions C13_collect_keeps_unexpired.
+
+Example C13_collect_nonvacuous :
+  let s := fst (a_run (new_agent 1) [AStart 1 5; AStart 2 6; AStart 3 4000000000000000000000]) in
+  snd (snd (a_step s (ACollect 6))) = [mkEv 1 1 K_TIMEOUT 0 true] /\
+  ag_tbl (fst (a_step s (ACollect 6))) = [(2, 6%Z); (3, 4000000000000000000000%Z)].
+Proof. vm_compute. split; reflexivity. Qed.
